@@ -428,6 +428,11 @@ func (m *schM) expr(e ast.Expr, pre *[]string) string {
 			}
 		}
 		return x.fail(e, "selector %s", nodeString(x.pkg, e))
+	case *ast.UnaryExpr:
+		if v.Op == token.NOT && isBool(info.TypeOf(v.X)) {
+			return "(!" + m.expr(v.X, pre) + ")"
+		}
+		return x.fail(e, "unary %s", v.Op)
 	case *ast.BinaryExpr:
 		l := m.expr(v.X, pre)
 		r := m.expr(v.Y, pre)
@@ -455,6 +460,15 @@ func (m *schM) expr(e ast.Expr, pre *[]string) string {
 					return "now"
 				}
 				return x.fail(e, "call %s.%s", pn.Imported().Path(), sel.Sel.Name)
+			}
+			// s.IsStarted(): `return s.started.Load()` of the embedded StartSync
+			if id.Name == m.recv && sel.Sel.Name == "IsStarted" && len(v.Args) == 0 {
+				if fld := x.isStartedField(); fld != "" {
+					if _, ok := m.fields[fld]; ok {
+						return "s." + fld
+					}
+				}
+				return x.fail(e, "IsStarted is not `return s.<atomic.Bool field>.Load()`")
 			}
 			// s.doAt(i)
 			if id.Name == m.recv {
@@ -603,7 +617,31 @@ func (m *schM) stmts(list []ast.Stmt, ind string, done func(ind string) string) 
 			}
 		}
 		if !terminal {
-			return ind + x.fail(s0, "if body that falls through")
+			// `if c { … }` whose body falls through (no return / panic / branch anywhere inside): run the body or not, go on
+			leaves := false
+			ast.Inspect(v.Body, func(n ast.Node) bool {
+				switch w := n.(type) {
+				case *ast.ReturnStmt, *ast.BranchStmt, *ast.GoStmt, *ast.DeferStmt:
+					leaves = true
+				case *ast.FuncLit:
+					return false
+				case *ast.CallExpr:
+					if id, ok := w.Fun.(*ast.Ident); ok && id.Name == "panic" {
+						leaves = true
+					}
+				case *ast.AssignStmt:
+					if w.Tok == token.DEFINE {
+						leaves = true // a local defined inside would have to be dropped again
+					}
+				}
+				return true
+			})
+			if leaves {
+				return ind + x.fail(s0, "if body that falls through")
+			}
+			thenS := m.stmts(body, ind+"      ", func(i string) string { return i + "Except.ok ((), s)" })
+			return schLets(pre, ind) + ind + "match (if " + c + " then\n" + thenS + "\n" + ind + "    else (Except.ok ((), s) : Except String (Unit × DoAtSt))) with\n" +
+				ind + "| Except.error e => Except.error e\n" + ind + "| Except.ok (_, s) =>\n" + m.stmts(rest, ind+"  ", done)
 		}
 		saved := map[string]string{}
 		for k, val := range m.params {
@@ -649,6 +687,38 @@ func (m *schM) stmts(list []ast.Stmt, ind string, done func(ind string) string) 
 		return ind + x.fail(s0, "call statement %s", nodeString(x.pkg, s0))
 	}
 	return ind + x.fail(s0, "%T", s0)
+}
+
+// isStartedField: the atomic.Bool field f such that (*StartSync).IsStarted is `return s.f.Load()` ("" otherwise)
+func (x *schTr) isStartedField() string {
+	fd := schFindMethod(x.pkg, "StartSync", "IsStarted")
+	if fd == nil || fd.Body == nil || len(fd.Body.List) != 1 || len(fd.Recv.List[0].Names) != 1 {
+		return ""
+	}
+	rs, ok := fd.Body.List[0].(*ast.ReturnStmt)
+	if !ok || len(rs.Results) != 1 {
+		return ""
+	}
+	call, ok := rs.Results[0].(*ast.CallExpr)
+	if !ok || len(call.Args) != 0 {
+		return ""
+	}
+	sel, ok := call.Fun.(*ast.SelectorExpr)
+	if !ok || sel.Sel.Name != "Load" {
+		return ""
+	}
+	inner, ok := sel.X.(*ast.SelectorExpr)
+	if !ok {
+		return ""
+	}
+	id, ok := inner.X.(*ast.Ident)
+	if !ok || id.Name != fd.Recv.List[0].Names[0].Name {
+		return ""
+	}
+	if types.TypeString(x.pkg.TypesInfo.TypeOf(inner), nil) != "go.uber.org/atomic.Bool" {
+		return ""
+	}
+	return inner.Sel.Name
 }
 
 func (x *schTr) method(recvType, name, leanName string, fields map[string]string) string {
